@@ -3,13 +3,6 @@ import LiquidVerif.Lemmas.ExcFlowKnown
 namespace LiquidVerif.C02
 open LiquidVerif.Gen.C02 Cls Res
 
-/-- known-leak cells of the tag-level sites -/
-def knownSiteLeak (s : Site) (x : Cls) : Bool :=
-  match s with
-  -- str() of an int with more than 4300 digits
-  | .output | .cycle_item | .include_name | .contains_in_str => x == int_giant
-  | _ => false
-
 theorem table_sites :
     (Site.all.all fun s => Cls.all.all fun x => [true, false].all fun strict =>
       knownSiteLeak s x || allContained (runSiteMode strict s x)) = true := by decide +kernel
